@@ -363,15 +363,15 @@ func (w *World) nilStatus(fn *ssa.Function, i int, seen map[string]bool) int {
 			status = s
 		}
 	}
-	errDefinitelySet := func(r *ssa.Return) bool {
-		if ei < 0 || ei >= len(r.Results) {
+	errDefinitelySet := func(errVal ssa.Value, r ssa.Instruction) bool {
+		if errVal == nil {
 			return false
 		}
-		whole := strip(r.Results[ei])
+		whole := strip(errVal)
 		if w.requires(fn, r, func(a Atom) bool { return a.Kind == "nil" && strip(a.X) == whole }, false) {
 			return true // the returned error value itself was tested non-nil on the way here
 		}
-		for _, e := range phiLeaves(r.Results[ei]) {
+		for _, e := range phiLeaves(errVal) {
 			if w.isFreshError(e) {
 				continue
 			}
@@ -393,13 +393,47 @@ func (w *World) nilStatus(fn *ssa.Function, i int, seen map[string]bool) int {
 		}
 		return true
 	}
+	// one (value, error, program point) triple per way of leaving: a return whose value and error are both joined in
+	// the returning block (the tail of a merged helper: `return msg, err` behind an if/else that only counts) is read
+	// edge by edge, each pair at the end of the predecessor it comes from
+	type exitPair struct {
+		v, e ssa.Value
+		at   ssa.Instruction
+	}
+	var exits []exitPair
 	for _, r := range returnsUnder(fn, nil) {
 		if i >= len(r.Results) {
 			continue
 		}
-		for _, v := range phiLeaves(r.Results[i]) {
+		var ev ssa.Value
+		if ei >= 0 && ei < len(r.Results) {
+			ev = r.Results[ei]
+		}
+		var expand func(v, e ssa.Value, at ssa.Instruction, d int)
+		expand = func(v, e ssa.Value, at ssa.Instruction, d int) {
+			pv, okV := strip(v).(*ssa.Phi)
+			var pe *ssa.Phi
+			if e != nil {
+				pe, _ = strip(e).(*ssa.Phi)
+			}
+			if okV && pe != nil && pv.Block() == pe.Block() && len(pv.Edges) == len(pe.Edges) && d < 3 && pv.Block().Dominates(at.Block()) {
+				for k := range pv.Edges {
+					pred := pv.Block().Preds[k]
+					expand(pv.Edges[k], pe.Edges[k], pred.Instrs[len(pred.Instrs)-1], d+1)
+				}
+				return
+			}
+			for _, leaf := range phiLeaves(v) {
+				exits = append(exits, exitPair{leaf, e, at})
+			}
+		}
+		expand(r.Results[i], ev, r, 0)
+	}
+	for _, x := range exits {
+		v, r := x.v, x.at
+		{
 			if isNilConst(v) {
-				if errDefinitelySet(r) {
+				if errDefinitelySet(x.e, r) {
 					up(nilOnlyWithError)
 				} else {
 					up(nilPossiblyWithNilError)
@@ -430,8 +464,8 @@ func (w *World) nilStatus(fn *ssa.Function, i int, seen map[string]bool) int {
 				}
 				// forwarded together with the inner call's own error
 				fwd := false
-				if ei >= 0 && ei < len(r.Results) {
-					fwd = allVals(phiLeaves(r.Results[ei]), func(e ssa.Value) bool { return isResultOf(e, kc, kei) })
+				if x.e != nil {
+					fwd = allVals(phiLeaves(x.e), func(e ssa.Value) bool { return isResultOf(e, kc, kei) })
 				}
 				if fwd {
 					up(nilOnlyWithError)
